@@ -382,7 +382,7 @@ func fragParseBytes(g *Gen, n int, o *Out) {
 // budgets around N and on a geometric sweep, through both option spellings.
 func fragBudget(g *Gen, n int, o *Out) {
 	var inputs []string
-	inputs = append(inputs, "a == 1", "", "(", "((((a == 1))))", "a ==", "all a as x { x == 1 }", "\xff", "not not not a == 1",
+	inputs = append(inputs, "a == 1", "foo == 3x", "(foo == 1", "foo[1] == 2", "foo[\"a\" == 2", "1 in 5", "foo == \"abc", "foo[\xff", "", "(", "((((a == 1))))", "a ==", "all a as x { x == 1 }", "\xff", "not not not a == 1",
 		"a == 1 and b == 2 or c == 3", "((a == 1) and (b == 2))", "(((((", "a[\"b\"].c is not empty")
 	for len(inputs) < n {
 		if g.r.Intn(4) == 0 {
@@ -399,6 +399,7 @@ func fragBudget(g *Gen, n int, o *Out) {
 		}
 	}
 	stepCap := uint64(300000)
+	sweeps := 0
 	if n >= 2000 {
 		stepCap = 40000000
 	}
@@ -443,6 +444,24 @@ func fragBudget(g *Gen, n int, o *Out) {
 			if (err == nil) != accepted || (ev != nil) != accepted {
 				o.finding(Finding{Property: "C11", Kind: "failing-input", What: "WithMaxExpressions and grammar.MaxExpressions disagree", Request: fmt.Sprintf("parse %d %s", b, hx(in))})
 			}
+		}
+		// every budget below N (real code only): the max-expressions error, whatever syntax errors the
+		// parse has already logged at the point where the budget runs out
+		sweepCap := uint64(3000)
+		if n >= 600 {
+			sweepCap = 8000
+		}
+		if sweeps < 24 && N <= sweepCap && N > 8 {
+			sweeps++
+			for b := uint64(1); b < N; b++ {
+				lim := realParse(b, []byte(in))
+				o.meta.Cases++
+				if !strings.HasSuffix(lim, "max") || !strings.HasPrefix(lim, "err") {
+					o.finding(Finding{Property: "C11", Kind: "failing-input", What: fmt.Sprintf("budget %d < N=%d does not fail with the max-expressions error", b, N), Request: fmt.Sprintf("parse %d %s", b, hx(in)), Detail: lim})
+					break
+				}
+			}
+			o.count("budget:full-sweep")
 		}
 		// an unlimited parse right after limited ones gives the unlimited result again
 		for rep := 0; rep < 6; rep++ {
